@@ -79,7 +79,35 @@ impl<'a> Planner<'a> {
         // ORDER BY (must go before the projection since it needs the full input schema)
         let sorted = if !select.order_by.is_empty() {
             let input_props = self.get_group_properties(having_applied)?;
-            self.build_sort(having_applied, &select.order_by, &input_props.schema)?
+            // Above an aggregate the rows have the shape of the select list, not of the FROM clause the ORDER BY
+            // expressions were bound against: an expression that is an item of the select list is addressed by its
+            // position there (it used to be evaluated with its FROM position: "column index out of bounds").
+            let order_by: Vec<BoundOrderBy> = if aggregated != filtered {
+                select
+                    .order_by
+                    .iter()
+                    .map(|o| match select.columns.iter().find(|c| c.expr == o.expr) {
+                        Some(item) => BoundOrderBy {
+                            expr: BoundExpression::ColumnBinding(Binding {
+                                table_id: None,
+                                scope_index: 0,
+                                column_idx: item.output_idx,
+                                data_type: select
+                                    .schema
+                                    .column(item.output_idx)
+                                    .map(|c| c.datatype())
+                                    .unwrap_or(crate::types::DataTypeKind::Null),
+                            }),
+                            asc: o.asc,
+                            nulls_first: o.nulls_first,
+                        },
+                        None => o.clone(),
+                    })
+                    .collect()
+            } else {
+                select.order_by.clone()
+            };
+            self.build_sort(having_applied, &order_by, &input_props.schema)?
         } else {
             having_applied
         };
